@@ -185,7 +185,8 @@ def analyse(src: str, clsname: str = "Lysosome") -> dict:
             raise Unrecognised("nested function")
 
         def visit_Lambda(self, node):
-            raise Unrecognised("lambda inside a method")
+            # treated as if its body ran where it is written (over-approximation: a key function, a default, ...)
+            self.visit(node.body)
 
         def visit_Yield(self, node):
             raise Unrecognised("generator method")
@@ -238,7 +239,9 @@ def analyse(src: str, clsname: str = "Lysosome") -> dict:
                 unlockd |= b
         return lockd, unlockd
 
-    public = [n for n in order if not n.startswith("_")]
+    def is_public(n):       # dunder methods (repr, len, ...) are entry points too; __init__ runs before sharing
+        return not n.startswith("_") or (n.startswith("__") and n.endswith("__") and n != "__init__")
+    public = [n for n in order if is_public(n)]
     lw, uw = {}, {}
     for n in public:
         a, b = writes(n, 0)
@@ -252,7 +255,7 @@ def analyse(src: str, clsname: str = "Lysosome") -> dict:
                 ins.append(i[0])
             elif i[0] == "call":
                 ins.append(f"call {index[i[1]]}")
-        methods.append((n, not n.startswith("_"), ins))
+        methods.append((n, is_public(n), ins))
     return {"kind": kind, "methods": methods, "table": sorted(index[n] for n in referenced),
             "locked_writes": lw, "unlocked_writes": uw, "recognised": True}
 
